@@ -77,7 +77,7 @@ REPAIR_MARKS = {   # repair of spec/Move.tla -> (file, text that only the repair
     "restart": ("torrent/session_torrent.go", "status != Stopped && status != Stopping"),
     "flush": ("torrent/session_torrent.go", "_ = t.torrent.Stats()"),
     "cleanup": ("torrent/session_move_torrent.go", "removeData()"),
-    "reserve": ("torrent/session_move_torrent.go", "reserveID(id)"),
+    "reserve": ("torrent/session_move_torrent.go", "session.reserveID(id)"),   # (not "unreserveID(id)": round 4, DESIGN 13)
     "self": ("torrent/session_move_torrent.go", "moving.Load()"),
     "walk": ("torrent/session_torrent.go", "os.Stat(root)"),
 }
